@@ -390,7 +390,7 @@ def main(argv: List[str]) -> int:
                 return True, {**base, "what": f"{meta['class']}.__eq__ is not structural equality: {w['observed']}", **w}
             return False, {**base, "what": f"{meta['class']}.__eq__ is not provably '{contract.note}'"}
 
-        verify(run, stats, world, interp, fi, contract, label, on_fail)
+        verify(run, stats, world, interp, fi, contract, label, on_fail, lambda msg, label=label: run.notes.append(f"{label}: outside the verified subset ({msg}); the native (class, structural field) comparison below stands in (bounded)"))
     # every model class that can occur in a loaded model has a hand-written __eq__ under contract
     under = {m["class"] for _, _, _, m in items}
     for cname in sorted(set(KIND_CLASS.values()) | {"LSPModel", "MetaData", "Request", "Notification", "Structure", "Enum", "EnumItem", "EnumValueType", "TypeAlias", "Property", "LiteralValue", "BaseMapKeyType", "ReferenceMapKeyType"}):
